@@ -209,12 +209,30 @@ ADD11 = {
  "C18": " Every type's length bounds are the package's own constants (a transport message has at least MessageTransportBytesMin bytes); a parser never assigns a slice field append(<that field as it was on entry>, ...). The openvpn verdict tables also under this property (a parser rejects a wrong length whatever state the message object is in).",
 }
 
+ADD12 = {
+ "C01": " Prefetch keeps the bytes of a read that also returned an error before it reports the error.",
+ "C02": " A verdict remembered between calls is looked at only beside the bytes it was computed from; a handler that hands on a new connection builds it on the one it was given (also under this property).",
+ "C03": " Each queued datagram has storage of its own until it has been read (also under this property).",
+ "C04": " The addresses a PROXY header is built from are tested for their kind before they are converted.",
+ "C05": " The HTTP/2 framer's limit is a constant (also under this property).",
+ "C06": " The HTTP/2 framer's limit is a constant; an HTTP first line shorter than a method, a target and a version is no request.",
+ "C07": " A hello spread over twenty records; the alpn matcher's Caddyfile tables also under this property.",
+ "C08": " Provision stores into the fields of a peer only where it has just allocated it (a pooled peer another configuration uses stays as it is); after a connection is handed to the handler's goroutine the listener loop touches it no more.",
+ "C09": " The idle timer's channel is drained when Stop reports it had fired; every path of Read that tells the loop the association is over returns io.EOF.",
+ "C10": " Every upstream has at least one dial address, so every upstream selected has a peer.",
+ "C11": " The probe of a peer is started under no condition on the peer's own state; the selection policies' index rules also under this property.",
+ "C13": " After handing a connection to its handler the accept loop does not use it; a handler that passes on the connection it was given passes on what it buffered from it.",
+ "C15": " The dial address parsed at provisioning is the replacer's result.",
+ "C16": " The socks5 handler's Caddyfile tables also under this property (credentials come in pairs).",
+ "C18": " A parser assigns every field on every accepting path; every maximum constant of a layout is compared.",
+}
+
 checks = []
 for p in props:
     if p["id"] not in CLAIMS:
         continue
     tech, text, ref = CLAIMS[p["id"]]
-    text = text + ADD6.get(p["id"], "") + ADD7.get(p["id"], "") + ADD8.get(p["id"], "") + ADD9.get(p["id"], "") + ADD10.get(p["id"], "") + ADD11.get(p["id"], "")
+    text = text + ADD6.get(p["id"], "") + ADD7.get(p["id"], "") + ADD8.get(p["id"], "") + ADD9.get(p["id"], "") + ADD10.get(p["id"], "") + ADD11.get(p["id"], "") + ADD12.get(p["id"], "")
     checks.append({
         "property_id": p["id"],
         "quick_cmd": "./run.sh %s quick" % p["id"],
